@@ -123,3 +123,15 @@ package server
 //@   ensures[readonly@C04] (len(authCmd) == 0 && cc(s).isSlave) ==> out != nil && bytes_are(out, "*1\r\n$8\r\nREADONLY\r\n") && cc(s).initStep == 1 && cc(s).initStatus == core.Initializing
 //@   ensures[both@C04] (len(authCmd) > 0 && cc(s).isSlave) ==> out != nil && bytes_are(out, s_cat(authCmd, "*1\r\n$8\r\nREADONLY\r\n")) && cc(s).initStep == 2 && cc(s).initStatus == core.Initializing
 //@   ensures[action] action == core.None
+
+// ---- redirects (C13): the fragment is queued again on a connection of the pool of the node the reply names ----
+//@ func listenServer.OnMoved
+//@   props C13 C15
+//@   requires f != nil && f.Peer != nil && f.Peer.Fd2Slot != nil && s != nil && core.EngineGlobal != nil
+//@   requires forall a string :: has(core.EngineGlobal.ProxyPool, a) ==> core.EngineGlobal.ProxyPool[a] != nil
+//@   assume at call Pool.Get#0 :: core.pwf(pool)
+//@   assume at call conn.EnqueueOutFrag#0 :: fnotinq(sConn, f)
+//@   assert[target@C13] at call conn.EnqueueOutFrag#0 :: has(core.EngineGlobal.ProxyPool, addr) && core.tracked(core.EngineGlobal.ProxyPool[addr], sConn) && cc(sConn).opened
+//@   assert[asking@C13] at call conn.EnqueueOutFrag#0 :: f.Type == codec.RspAsk ==> (len(f.Req) == len(old(f.Req)) + 16 && f.Req[0] == '*' && f.Req[1] == '1' && f.Req[8] == 'A' && f.Req[9] == 'S' && f.Req[10] == 'K')
+//@   ensures[reset@C13] len(f.RspBody) == 0
+//@   ensures[unknown.resolved@C15] !has(core.EngineGlobal.ProxyPool, addr) ==> (f.Done || f.Peer.Done || !cc(f.Owner).opened)
